@@ -235,6 +235,15 @@ func (n *networkService) AllocIP(ctx context.Context, r *rpc.AllocIPRequest) (*r
 		})
 		return nil, err
 	}
+	defer func() {
+		// hand back what this request took if a later step fails. When an earlier
+		// ADD already recorded the pod, the record still owns the allocation.
+		if err != nil && len(oldRes.Resources) == 0 {
+			_ = n.eniMgr.Release(ctx, cni, &eni.ReleaseRequest{
+				NetworkResources: resp,
+			})
+		}
+	}()
 
 	for _, res := range resp {
 		netConf = append(netConf, res.ToRPC()...)
